@@ -40,6 +40,9 @@ type vStaking struct {
 	ubds       []stakingtypes.UnbondingDelegation
 	reds       []stakingtypes.Redelegation
 	ubdRemoved math.Int // balance removed from unbonding entries by Set/RemoveUnbondingDelegation
+	// x/staking's Delegate writes back the validator record it is GIVEN (tokens + amount): a caller passing a record
+	// that is not the validator's current one loses what was added in between
+	staleArg bool
 }
 
 type vValSet struct {
@@ -128,6 +131,13 @@ func (s *vStaking) Delegate(ctx context.Context, delAddr sdk.AccAddress, bondAmt
 			s.ledgerBonded = s.ledgerBonded.Add(bondAmt)
 		} else {
 			s.ledgerNotBonded = s.ledgerNotBonded.Add(bondAmt)
+		}
+	}
+	for vi, v := range s.vals {
+		if v.OperatorAddress == validator.OperatorAddress {
+			s.staleArg = ndOr(s.staleArg, !validator.Tokens.Equal(v.Tokens))
+			s.vals[vi].Tokens = validator.Tokens.Add(bondAmt)
+			s.vals[vi].DelegatorShares = validator.DelegatorShares.Add(math.LegacyNewDecFromInt(bondAmt))
 		}
 	}
 	s.delegated = s.delegated.Add(bondAmt)
